@@ -204,6 +204,43 @@ func buildOverlay(repo, verif, out string) (string, *rewriteStats, error) {
 				rel, _ := filepath.Rel(repo, ps.Filename)
 				return fmt.Sprintf("%s:%d", filepath.ToSlash(rel), ps.Line)
 			}
+			// channel seam state for this file (package parser only)
+			inSelect := map[ast.Node]bool{}
+			helperIdx := map[string]int{}
+			var helperTypes []string
+			qual := func(tp *types.Package) string {
+				if tp == p.tpkg {
+					return ""
+				}
+				for _, im := range f.Imports {
+					ipath := strings.Trim(im.Path.Value, "\"")
+					if ipath == tp.Path() {
+						if im.Name != nil {
+							return im.Name.Name
+						}
+						return tp.Name()
+					}
+				}
+				return tp.Name()
+			}
+			helperFor := func(chExpr ast.Expr) (int, bool) {
+				tv, ok := p.info.Types[chExpr]
+				if !ok || tv.Type == nil {
+					return 0, false
+				}
+				ct, isChan := tv.Type.Underlying().(*types.Chan)
+				if !isChan {
+					return 0, false
+				}
+				ts := types.TypeString(ct.Elem(), qual)
+				if i, ok := helperIdx[ts]; ok {
+					return i, true
+				}
+				helperIdx[ts] = len(helperTypes)
+				helperTypes = append(helperTypes, ts)
+				return len(helperTypes) - 1, true
+			}
+			text := func(e ast.Node) string { return string(src[off(e.Pos()):off(e.End())]) }
 			ast.Inspect(f, func(n ast.Node) bool {
 				switch s := n.(type) {
 				case *ast.RangeStmt:
@@ -256,28 +293,123 @@ func buildOverlay(repo, verif, out string) (string, *rewriteStats, error) {
 					edits = append(edits, edit{off(s.Pos()), off(s.Body.Lbrace) + 1, hdr + body})
 					st.MapSitesHooked = append(st.MapSitesHooked, sname)
 				case *ast.SendStmt:
+					if !isParser || inSelect[s] {
+						return true
+					}
+					edits = append(edits, edit{off(s.Pos()), off(s.End()), fmt.Sprintf("verifshim.Send(%s, %s)", text(s.Chan), text(s.Value))})
+					st.ChanSendsHooked = append(st.ChanSendsHooked, site(s.Pos()))
+				case *ast.SelectStmt:
 					if !isParser {
 						return true
 					}
-					chText := string(src[off(s.Chan.Pos()):off(s.Chan.End())])
-					valText := string(src[off(s.Value.Pos()):off(s.Value.End())])
-					edits = append(edits, edit{off(s.Pos()), off(s.End()), fmt.Sprintf("verifshim.Send(%s, %s)", chText, valText)})
-					st.ChanSendsHooked = append(st.ChanSendsHooked, site(s.Pos()))
-				case *ast.SelectStmt:
-					if isParser {
+					// select -> switch over verifshim.Select(...): every case becomes a transition of the scheduler
+					var cases []string
+					hasDefault := false
+					type clauseEdit struct {
+						cc   *ast.CommClause
+						head string
+					}
+					var ces []clauseEdit
+					okAll := true
+					idx := 0
+					for _, cl := range s.Body.List {
+						cc := cl.(*ast.CommClause)
+						switch comm := cc.Comm.(type) {
+						case nil:
+							hasDefault = true
+							ces = append(ces, clauseEdit{cc, "case -1:"})
+						case *ast.SendStmt:
+							inSelect[comm] = true
+							cases = append(cases, fmt.Sprintf("verifshim.SendCase(%s, %s)", text(comm.Chan), text(comm.Value)))
+							ces = append(ces, clauseEdit{cc, fmt.Sprintf("case %d:", idx)})
+							idx++
+						case *ast.ExprStmt:
+							ue, isRecv := comm.X.(*ast.UnaryExpr)
+							if !isRecv || ue.Op != token.ARROW {
+								okAll = false
+								break
+							}
+							inSelect[ue] = true
+							cases = append(cases, fmt.Sprintf("verifshim.RecvCase(%s)", text(ue.X)))
+							ces = append(ces, clauseEdit{cc, fmt.Sprintf("case %d:", idx)})
+							idx++
+						case *ast.AssignStmt:
+							ue, isRecv := comm.Rhs[0].(*ast.UnaryExpr)
+							if !isRecv || ue.Op != token.ARROW || len(comm.Rhs) != 1 {
+								okAll = false
+								break
+							}
+							hi, okh := helperFor(ue.X)
+							if !okh {
+								okAll = false
+								break
+							}
+							inSelect[ue] = true
+							cases = append(cases, fmt.Sprintf("verifshim.RecvCase(%s)", text(ue.X)))
+							head := fmt.Sprintf("case %d: %s %s verifVal_%d(verifSel_.Value);", idx, text(comm.Lhs[0]), comm.Tok.String(), hi)
+							if len(comm.Lhs) == 2 {
+								head = fmt.Sprintf("case %d: %s, %s %s verifVal_%d(verifSel_.Value), verifSel_.Ok;", idx, text(comm.Lhs[0]), text(comm.Lhs[1]), comm.Tok.String(), hi)
+							}
+							ces = append(ces, clauseEdit{cc, head})
+							idx++
+						default:
+							okAll = false
+						}
+					}
+					if !okAll {
 						st.ChanOpsUnhooked = append(st.ChanOpsUnhooked, site(s.Pos())+":select")
+						return true
 					}
+					edits = append(edits, edit{off(s.Pos()), off(s.Body.Lbrace) + 1, fmt.Sprintf("switch verifSel_ := verifshim.Select(%v, %s); verifSel_.Index {", hasDefault, strings.Join(cases, ", "))})
+					for _, ce := range ces {
+						edits = append(edits, edit{off(ce.cc.Pos()), off(ce.cc.Colon) + 1, ce.head})
+					}
+					st.ChanSendsHooked = append(st.ChanSendsHooked, site(s.Pos())+":select")
+				case *ast.AssignStmt:
+					if !isParser || len(s.Rhs) != 1 {
+						return true
+					}
+					ue, isRecv := s.Rhs[0].(*ast.UnaryExpr)
+					if !isRecv || ue.Op != token.ARROW || inSelect[ue] {
+						return true
+					}
+					hi, okh := helperFor(ue.X)
+					if !okh {
+						return true
+					}
+					inSelect[ue] = true
+					fn := "verifRecv1_"
+					if len(s.Lhs) == 2 {
+						fn = "verifRecv2_"
+					}
+					edits = append(edits, edit{off(ue.Pos()), off(ue.End()), fmt.Sprintf("%s%d(%s)", fn, hi, text(ue.X))})
+					st.ChanSendsHooked = append(st.ChanSendsHooked, site(ue.Pos())+":recv")
 				case *ast.UnaryExpr:
-					if isParser && s.Op == token.ARROW {
+					if !isParser || s.Op != token.ARROW || inSelect[s] {
+						return true
+					}
+					hi, okh := helperFor(s.X)
+					if !okh {
 						st.ChanOpsUnhooked = append(st.ChanOpsUnhooked, site(s.Pos())+":recv")
+						return true
 					}
+					edits = append(edits, edit{off(s.Pos()), off(s.End()), fmt.Sprintf("verifRecv1_%d(%s)", hi, text(s.X))})
+					st.ChanSendsHooked = append(st.ChanSendsHooked, site(s.Pos())+":recv")
 				case *ast.GoStmt:
-					if isParser {
-						st.ChanOpsUnhooked = append(st.ChanOpsUnhooked, site(s.Pos())+":go")
+					if !isParser {
+						return true
 					}
+					edits = append(edits, edit{off(s.Pos()), off(s.Call.Pos()), "verifshim.Go(func() { "})
+					edits = append(edits, edit{off(s.Call.End()), off(s.Call.End()), " })"})
+					st.ChanSendsHooked = append(st.ChanSendsHooked, site(s.Pos())+":go")
 				case *ast.CallExpr:
-					if id, ok := s.Fun.(*ast.Ident); ok && id.Name == "close" && isParser {
-						st.ChanOpsUnhooked = append(st.ChanOpsUnhooked, site(s.Pos())+":close")
+					if id, ok := s.Fun.(*ast.Ident); ok && id.Name == "close" && isParser && len(s.Args) == 1 {
+						if tv, ok := p.info.Types[s.Args[0]]; ok && tv.Type != nil {
+							if _, isChan := tv.Type.Underlying().(*types.Chan); isChan {
+								edits = append(edits, edit{off(s.Fun.Pos()), off(s.Fun.End()), "verifshim.Close"})
+								st.ChanSendsHooked = append(st.ChanSendsHooked, site(s.Pos())+":close")
+							}
+						}
 					}
 				}
 				return true
@@ -299,6 +431,11 @@ func buildOverlay(repo, verif, out string) (string, *rewriteStats, error) {
 				last = e.end
 			}
 			buf.Write(src[last:])
+			for i, ts := range helperTypes {
+				fmt.Fprintf(&buf, "\nfunc verifVal_%d(v interface{}) %s {\n\tif v == nil {\n\t\tvar z %s\n\t\treturn z\n\t}\n\treturn v.(%s)\n}\n", i, ts, ts, ts)
+				fmt.Fprintf(&buf, "func verifRecv2_%d(ch interface{}) (%s, bool) {\n\tv, ok := verifshim.Recv(ch)\n\treturn verifVal_%d(v), ok\n}\n", i, ts, i)
+				fmt.Fprintf(&buf, "func verifRecv1_%d(ch interface{}) %s {\n\tv, _ := verifshim.Recv(ch)\n\treturn verifVal_%d(v)\n}\n", i, ts, i)
+			}
 			rel, _ := filepath.Rel(repo, fname)
 			dst := filepath.Join(rwdir, rel)
 			if err := os.MkdirAll(filepath.Dir(dst), 0o755); err != nil {
